@@ -109,7 +109,12 @@ LAYER = {1: "text: after replace the text nodes are not re.subn of the former te
          3: "markup: replace moved or lost markup",
          4: "normal form: a container whose own text was replaced with formatted=True is not in white-space normal form",
          7: "oracle table incomplete"}
-NEWS = ['X', '', 'A\tB  C', ' ', '  ', 'x\ny', ' x', 'y ', 'a  a', '\t', '\\g<0>\\g<0>', 'a\\g<0>']
+# replacement templates (re.sub syntax), used at element level AND through the odfdo-replace script, for both flag values:
+# white space as real control characters and as two-character escapes, group references, backslashes, non-ASCII text
+# (precomposed, combining, compatibility, non-BMP)
+NEWS = ['X', '', 'A\tB  C', ' ', '  ', 'x\ny', ' x', 'y ', 'a  a', '\t', '\\g<0>\\g<0>', 'a\\g<0>', '\\g<0>b',
+        'cr\u00e8me br\u00fbl\u00e9e', '\u00e0  la\tcarte', 'e\u0301x', '\U0001f600', '\u212b \u2126', '\\g<0>\u00e9',
+        'x\\ny', 'x\\ty', 'a\\\\b', '\\\\', '\\g<0>\\\\n']
 
 
 def coq_tbl(ctx, items, val):
@@ -217,7 +222,8 @@ def run_script_case(odfdo, ctx, case, workdir, idx):
             if op['k'] == 'script_replace':
                 search_replace(rx, op['new'], src, dst, op.get('fmt', False))
             else:
-                hl.highlight(Namespace(input_file=src, output_file=dst, pattern=rx, italic=False, bold=True, color=None, background=None))
+                hl.highlight(Namespace(input_file=src, output_file=dst, pattern=rx, italic=op.get('italic', False), bold=op.get('bold', True),
+                                       color=op.get('color'), background=op.get('background')))
         post = tl.abs_node(body_of(dst), ctx)
     except tl.Timeout:
         raise
@@ -230,7 +236,9 @@ def run_script_case(odfdo, ctx, case, workdir, idx):
         cop = '%s %s' % ('RFmt' if op.get('fmt') else 'RPlainS', coq_tbl(ctx, want, lambda v: '(%s, %d)' % (ctx.cs(v[0]), v[1])))
         vo = 'VNat %d' % total       # the script reports no count: the per-node sum is passed through
     else:
-        cop = 'HL %d' % ctx.attr(T + 'span', {T + 'style-name': 'odfdo_20_highlight_20_bold'})
+        parts = ['odfdo', 'highlight'] + [x.lower() for x in (op.get('color'), op.get('background')) if x]
+        parts += (['italic'] if op.get('italic', False) else []) + (['bold'] if op.get('bold', True) else [])
+        cop = 'HL %d' % ctx.attr(T + 'span', {T + 'style-name': '_20_'.join(parts)})
         vo = 'VNat 0'
     if err:
         vo = 'VStr [Ch 999]'
@@ -244,12 +252,13 @@ def gen_script_cases(rng, n):
         blocks = tl.gen_body(rng, edge=(i % 5 == 4))
         rx = rng.choice(tl.REGEXES)
         r = rng.random()
-        if r < .55:
-            op = dict(k='script_replace', rx=rx, new=rng.choice(['\\g<0>\\g<0>', 'a\\g<0>', '\\g<0>b', 'X', '']), fmt=False)
-        elif r < .75:
-            op = dict(k='script_replace', rx=rx, new=rng.choice(['\\g<0> \\g<0>', 'A\tB  C', 'x\ny']), fmt=True)
+        if r < .40:
+            op = dict(k='script_replace', rx=rx, new=rng.choice(NEWS), fmt=False)
+        elif r < .80:
+            op = dict(k='script_replace', rx=rx, new=rng.choice(NEWS), fmt=True)
         else:
-            op = dict(k='script_highlight', rx=rx)
+            op = dict(k='script_highlight', rx=rx, italic=rng.random() < .5, bold=rng.random() < .5,
+                      color=rng.choice([None, 'red', '#FF0000']), background=rng.choice([None, 'yellow']))
         cases.append(dict(blocks=blocks, op=op))
     return cases
 
